@@ -1,15 +1,21 @@
 (* C15 -- UDP datagrams keep their boundaries and contents through the tunnel.
-   mx is MAX_UDP_PACKET_SIZE of the side that runs the function (udp_max_client / udp_max_server,
-   regenerated from the sources; both are 65535 by Gen/GeneratedFacts.udp_max_both_u16). *)
+   mx   = MAX_UDP_PACKET_SIZE of the side that runs the function (udp_max side, regenerated),
+   stop = "an empty datagram ends the direction" as found in that side's stream_to_udp loop (udp_stop side,
+          regenerated).  C15_code_params states what the current sources give: 65535 and false, both sides. *)
 From Coq Require Import List NArith ZArith.
 From AnyTLS Require Import Bytes Reader ReaderProg Generated GeneratedFacts Dest Udp ReaderProofs DestProofs UdpProofs.
 Import ListNotations.
 Open Scope N_scope.
 
-(* what is framed is what is decoded: same datagrams, same order, same boundaries, nothing left *)
+Theorem C15_code_params : forall side, udp_max side <= 65535 /\ udp_stop side = false.
+Proof. exact udp_code_params. Qed.
+Print Assumptions C15_code_params.
+
+(* what is framed is what is decoded: same datagrams (empty ones included), same order, same
+   boundaries, nothing left *)
 Theorem C15_roundtrip : forall mx ds, mx <= 65535 ->
-  Forall (fun d => 1 <= lenN d /\ lenN d <= mx) ds ->
-  udp_decode_all mx (concat (map udp_frame ds)) = (ds, UMore []).
+  Forall (fun d => lenN d <= mx) ds ->
+  udp_decode_all false mx (concat (map udp_frame ds)) = (ds, UMore []).
 Proof. intros mx ds Hmx. exact (udp_roundtrip mx Hmx ds). Qed.
 Print Assumptions C15_roundtrip.
 
@@ -22,16 +28,16 @@ Print Assumptions C15_encode.
 (* the same through the per-stream reader for EVERY chunking of the byte stream (split length prefixes,
    merged datagrams, empty chunks); when the stream then ends the loop stops with EOF after delivering all *)
 Theorem C15_chunking : forall mx ds chunks closed, mx <= 65535 ->
-  Forall (fun d => 1 <= lenN d /\ lenN d <= mx) ds ->
+  Forall (fun d => lenN d <= mx) ds ->
   concat chunks = concat (map udp_frame ds) ->
-  udp_stream_rd mx chunks closed = (ds, if closed then SFail E_EOF else SPending).
+  udp_stream_rd false mx chunks closed = (ds, if closed then SFail E_EOF else SPending).
 Proof. intros mx ds chunks closed Hmx. exact (udp_chunking mx Hmx ds chunks closed). Qed.
 Print Assumptions C15_chunking.
 
 (* a truncated trailing frame delivers nothing and loses nothing before it *)
 Theorem C15_partial_tail : forall mx ds tail, mx <= 65535 ->
-  Forall (fun d => 1 <= lenN d /\ lenN d <= mx) ds -> udp_read1 mx tail = NeedMore ->
-  udp_decode_all mx (concat (map udp_frame ds) ++ tail) = (ds, UMore tail).
+  Forall (fun d => lenN d <= mx) ds -> udp_read1 mx tail = NeedMore ->
+  udp_decode_all false mx (concat (map udp_frame ds) ++ tail) = (ds, UMore tail).
 Proof. intros mx ds tail Hmx. exact (udp_roundtrip_tail mx Hmx ds tail). Qed.
 Print Assumptions C15_partial_tail.
 
@@ -51,14 +57,19 @@ Theorem C15_target : forall d p rest chunks closed,
 Proof. exact udp_init_chunking. Qed.
 Print Assumptions C15_target.
 
+(* the server's UDP socket can reach the target whatever its address family *)
+Theorem C15_target_family : forall t, udp_can_send (udp_bind_fam t) t = true.
+Proof. exact udp_bind_can_send. Qed.
+Print Assumptions C15_target_family.
+
 (* the magic destination selects the UDP handler *)
 Theorem C15_magic_routed : route (DName udp_magic_addr) = RUdp /\ wf_dest (DName udp_magic_addr).
 Proof. exact magic_addr_routes_udp. Qed.
 Print Assumptions C15_magic_routed.
 
 Example C15_nonvacuous :
-  udp_max_client <= 65535 /\ udp_max_server <= 65535 /\
-  udp_stream_rd udp_max_server [[0]; [1; 65; 0]; []; [2; 66; 67; 0]; [1]] false = ([[65]; [66; 67]], SPending) /\
-  udp_stream_rd udp_max_client [[0; 1; 65; 0; 2; 66; 67]] true = ([[65]; [66; 67]], SFail E_EOF) /\
-  udp_decode_all 65535 (udp_frame [65] ++ udp_frame [66; 67]) = ([[65]; [66; 67]], UMore []).
-Proof. repeat split; vm_compute; try reflexivity; discriminate. Qed.
+  udp_stream_rd (udp_stop false) (udp_max false) [[0]; [1; 65; 0]; []; [0; 0; 2; 66]; [67; 0]; [1]] false
+    = ([[65]; []; [66; 67]], SPending) /\
+  udp_stream_rd (udp_stop true) (udp_max true) [[0; 1; 65; 0; 2; 66; 67]] true = ([[65]; [66; 67]], SFail E_EOF) /\
+  udp_decode_all false 65535 (udp_frame [65] ++ udp_frame [] ++ udp_frame [66; 67]) = ([[65]; []; [66; 67]], UMore []).
+Proof. repeat split; vm_compute; reflexivity. Qed.
